@@ -331,6 +331,11 @@ func runC16(e *Engine, r *Report) {
 				// flag removed only when the orphan IS the recorded snapshot: not on the `noss` / index-mismatch edges
 				g1, _ := e.guardedOnAllPaths(s.(ssa.Instruction), reqBool("", e.callV(isOrphan), true))
 				g2 := e.dependsOnGuard(s.(ssa.Instruction), func(v ssa.Value) bool { return fieldV(ssIndex)(v) })
+				// ... with the polarity: the flagged directory's index EQUALS the recorded snapshot's
+				// (an older flagged directory - a late stream that raft never used - is removed, not kept)
+				if g3, _ := e.guardedOnAllPaths(s.(ssa.Instruction), reqCmp("", "==", fieldV(ssIndex), fieldV(ssIndex))); !g3 {
+					g2 = false
+				}
 				r.check(g1 && g2, "GD-orphans", "processOrphans keeps (un-flags) only the recorded snapshot", e.ipos(s),
 					"an orphaned final directory is kept only when the log store records exactly that snapshot", "processOrphans can un-flag a directory that is not the recorded snapshot")
 			}
